@@ -24,6 +24,40 @@ type Val struct {
 	Fn   *ssa.Function
 	Bind []Val // closure bindings
 	Bad  string // non-empty: value could not be modelled (reason); T is an unconstrained constant
+	Parts []string // for locally constructed slices: base, off, len, cap (lets len()/cap() fold to simple terms)
+}
+
+func slPart(v Val, i int) string {
+	if len(v.Parts) == 4 {
+		return v.Parts[i]
+	}
+	return app([]string{"sl.base", "sl.off", "sl.len", "sl.cap"}[i], v.T)
+}
+
+// simpArith folds (+ a b) / (- a b) over small decimal constants.
+func simpArith(op, a, b string) string {
+	var x, y int64
+	_, e1 := fmt.Sscanf(a, "%d", &x)
+	_, e2 := fmt.Sscanf(b, "%d", &y)
+	if e1 == nil && e2 == nil && fmt.Sprint(x) == a && fmt.Sprint(y) == b {
+		switch op {
+		case "+":
+			return sInt(x + y)
+		case "-":
+			return sInt(x - y)
+		}
+	}
+	if b == "0" {
+		return a
+	}
+	if a == "0" && op == "+" {
+		return b
+	}
+	return app(op, a, b)
+}
+
+func mkSlice(base, off, ln, cp string) Val {
+	return Val{T: app("mkslice", base, off, ln, cp), Sort: SSlice, Parts: []string{base, off, ln, cp}}
 }
 
 type PathEl struct {
@@ -97,6 +131,7 @@ type Gen struct {
 	uf        map[string]bool
 	regions   map[string]string // obligation name -> known-finding region (contract expression)
 	curEnv    func() *Env
+	prop      string
 }
 
 func NewGen(p *Prog) *Gen {
